@@ -471,3 +471,4 @@ Proof.
   rewrite Er. rewrite Hfits, Hun. cbn [negb]. rewrite Hech. cbn [ebody bytes_eqb list_eqb N.eqb Pos.eqb andb negb].
   rewrite Hsv, Hpsv. unfold VERSION_TLS13. rewrite N.eqb_refl. reflexivity.
 Qed.
+
